@@ -87,6 +87,9 @@ type State struct {
 	orgs   map[string]*origin  // provenance of terms read from struct fields
 	// goroutines started on this path that block on a context's Done channel
 	watchers []*watcher
+	// gepoch: version of the ghost call/once/atomic/channel arrays that are
+	// created lazily; bumped whenever they are havocked wholesale
+	gepoch int
 }
 
 type watcher struct {
@@ -102,7 +105,7 @@ type ctxInfo struct {
 }
 
 func (s *State) clone() *State {
-	n := &State{heap: make(map[string]Term, len(s.heap)), pc: append([]Term(nil), s.pc...), nonnil: make(map[string]bool, len(s.nonnil)), clos: make(map[string]*CloV, len(s.clos))}
+	n := &State{heap: make(map[string]Term, len(s.heap)), pc: append([]Term(nil), s.pc...), nonnil: make(map[string]bool, len(s.nonnil)), clos: make(map[string]*CloV, len(s.clos)), gepoch: s.gepoch}
 	for k, v := range s.heap {
 		n.heap[k] = v
 	}
@@ -271,6 +274,7 @@ type Exec struct {
 	exitPCs  []Term
 	arrSorts map[string]Sort
 	ifaceParams []string
+	frameSorts  map[string]Sort
 	spawned  []string
 	frameLocs  map[string][]Term // modifies clause resolved at entry: array -> locations
 	frameWhole map[string]bool
@@ -436,8 +440,69 @@ func (x *Exec) heapGet(st *State, name string, sort Sort) Term {
 		return t
 	}
 	t := x.d.Const("H0!"+name, sort)
+	if isGhostStateArr(name) && st.gepoch > 0 {
+		t = x.d.Const(fmt.Sprintf("G%d!%s", st.gepoch, name), sort)
+	}
 	st.heap[name] = t
 	return t
+}
+
+// isGhostStateArr: the ghost arrays describing calls of unknown function
+// values, sync.Once, atomics and channels.
+func isGhostStateArr(name string) bool {
+	if strings.HasPrefix(name, "$calls!") || strings.HasPrefix(name, "$callret!") {
+		return true
+	}
+	switch name {
+	case "$oncedone", "$atomic", "$atomicb", "$closed", "$recvready":
+		return true
+	}
+	return false
+}
+
+// havocGhostState forgets everything about the ghost call/once/atomic/channel
+// arrays, including those not materialised yet on this path.
+func (x *Exec) havocGhostState(st *State) {
+	x.d.fresh["gepoch"]++
+	st.gepoch = x.d.fresh["gepoch"]
+	for name := range st.heap {
+		if isGhostStateArr(name) {
+			delete(st.heap, name)
+		}
+	}
+}
+
+// contractTouchesGhostState: does the contract speak about calls of unknown
+// functions, once / atomic / channel state (then its callers must forget
+// them), or is it frameless?
+func contractTouchesGhostState(c *FuncContract) bool {
+	if c.Options["noframe"] == "true" {
+		return true
+	}
+	has := func(t string) bool {
+		for _, k := range []string{"calls(", "callret", "oncedone(", "atomicval(", "atomicbool(", "closedch(", "recvready("} {
+			if strings.Contains(t, k) {
+				return true
+			}
+		}
+		return false
+	}
+	for _, cl := range c.Ensures {
+		if has(cl.Text) {
+			return true
+		}
+	}
+	for _, cl := range c.EnsuresPanic {
+		if has(cl.Text) {
+			return true
+		}
+	}
+	for _, cl := range c.Modifies {
+		if has(cl.Text) {
+			return true
+		}
+	}
+	return false
 }
 
 func (x *Exec) fieldArr(st *State, styp types.Type, idx int) (string, Term, *types.Var) {
@@ -684,4 +749,22 @@ func loopPos(h *ssa.BasicBlock) token.Pos {
 		return token.Pos(1<<40 - 1)
 	}
 	return best
+}
+
+// ghostExplicit: the modifies clause lists ghost state (calls(f), atomics,
+// onces, chans): the contract frames it precisely.
+func ghostExplicit(c *FuncContract) bool {
+	for _, m := range c.Modifies {
+		switch e := m.E.(type) {
+		case ECall:
+			if e.Fn == "calls" {
+				return true
+			}
+		case EIdent:
+			if e.Name == "atomics" || e.Name == "onces" || e.Name == "chans" {
+				return true
+			}
+		}
+	}
+	return false
 }
